@@ -238,6 +238,40 @@ func c06FixedPlans() []planCase {
 		out = append(out, planCase{Plan: &spec.MergePlan{ChunkMode: cm, Children: []spec.MergePlan{gen1, {Leaf: &spec.BatchSpec{Wide: &spec.WideSpec{N: n}}}},
 			Drops: []spec.DropSpec{{Docs: []uint32{0}}, {Nil: true}}}})
 	}
+	// the first input's field list is a strict prefix of two lists that diverge afterwards
+	// ([_id] / [_id a] , [_id a b] , [_id a c]): the merged numbering differs from every input's
+	for _, firstEmpty := range []bool{true, false} {
+		mk := func(id string, fields ...string) spec.DocSpec {
+			d := spec.DocSpec{ID: spec.B(id)}
+			for i, f := range fields {
+				d.Fields = append(d.Fields, spec.FieldSpec{Name: f, Type: 't', Stored: true, Value: []byte(f + id), DV: true, Len: 2,
+					Tokens: []spec.TokenSpec{{Term: spec.B("t" + f), Freq: 2, Locs: []spec.LocSpec{{Pos: 1 + i, Start: i, End: i + 2}, {Pos: 5, Start: 9, End: 11}}}}})
+			}
+			return d
+		}
+		first := &spec.BatchSpec{}
+		if !firstEmpty {
+			first.Docs = []spec.DocSpec{mk("p0", "a")}
+		}
+		out = append(out, planCase{Plan: &spec.MergePlan{Children: []spec.MergePlan{{Leaf: first},
+			{Leaf: &spec.BatchSpec{Docs: []spec.DocSpec{mk("q0", "a", "b"), mk("q1", "a", "b")}}, Mmap: true},
+			{Leaf: &spec.BatchSpec{Docs: []spec.DocSpec{mk("r0", "a", "c"), mk("r1", "a", "c")}}}},
+			Drops: []spec.DropSpec{{Nil: true}, {Nil: true}, {}}}})
+	}
+	// a hit whose encoded locations exceed 127 bytes (40 occurrences in one document), followed by
+	// ordinary hits in the same chunk; identical field lists, so posting details are copied byte-wise
+	{
+		mk := func(id string, n int) spec.DocSpec {
+			tok := spec.TokenSpec{Term: "x", Freq: n}
+			for j := 0; j < n; j++ {
+				tok.Locs = append(tok.Locs, spec.LocSpec{Pos: j + 1, Start: 2 * j, End: 2*j + 1})
+			}
+			return spec.DocSpec{ID: spec.B(id), Fields: []spec.FieldSpec{{Name: "body", Type: 't', Len: n, Tokens: []spec.TokenSpec{tok}}}}
+		}
+		p := &spec.MergePlan{Children: []spec.MergePlan{{Leaf: &spec.BatchSpec{Docs: []spec.DocSpec{mk("a", 40), mk("b", 1)}}}, {Leaf: &spec.BatchSpec{Docs: []spec.DocSpec{mk("c", 1), mk("d", 30)}}, Mmap: true}},
+			Drops: []spec.DropSpec{{Nil: true}, {Nil: true}}}
+		out = append(out, planCase{Plan: p}, planCase{Plan: &spec.MergePlan{Children: []spec.MergePlan{*p}, Drops: []spec.DropSpec{{Nil: true}}}})
+	}
 	// 140 fields with locations, merged by re-encoding (the second input has one more field): field
 	// ids cross the 127/128 varint boundary inside the location records
 	many := func(label string, extra bool) spec.MergePlan {
